@@ -4,7 +4,7 @@ from hypothesis import strategies as st
 from vlib import gen, lib, configs, oracle
 from vlib.harness import HypSub
 from vlib.lib import Violation
-from checks.common_alg import well_formed, size_limit
+from checks.common_alg import well_formed, size_limit, build_dataset
 from corankco.algorithms.parcons.parcons import ParCons
 from corankco.algorithms.bioconsert.bioconsert import BioConsert
 from corankco.algorithms.bioconsert.bioco import BioCo
@@ -72,13 +72,16 @@ def cases(draw, tier):
     shapes = ["complete", "identical", "near_unanimous", "cyclic"] if complete else \
         ["incomplete", "incomplete", "sparse_block", "near_unanimous_incomplete", "cyclic_incomplete", "block_cyclic"]
     ds = draw(gen.datasets(max_n=mx, min_n=2, max_m=5, shapes=shapes, allow_empty_rankings=not complete))
+    via = draw(st.integers(0, 2)) == 0 and all(len(r) > 0 for r in ds["rankings"])
     return {"config": name, "env": env, "scheme": draw(schemes()), "dataset": ds,
-            "at_most_one": draw(st.sampled_from([True, True, False])), "rng": draw(st.integers(0, 9999))}
+            "at_most_one": draw(st.sampled_from([True, True, False])), "rng": draw(st.integers(0, 9999)),
+            # one case in three: the Dataset object reached these rankings through remove_elements
+            "via_mutation": [draw(st.integers(0, 10 ** 6)) for _ in range(len(ds["rankings"]))] if via else None}
 
 
 def check(case, ctx):
     rankings, scheme, name = case["dataset"]["rankings"], case["scheme"], case["config"]
-    d, s = lib.mk_dataset(rankings), lib.mk_scheme(scheme)
+    d, s = build_dataset(case), lib.mk_scheme(scheme)
     complete = gen.is_complete(rankings)
     n = len(oracle.universe(rankings))
     near = not any(lib.is_dyadic(scheme) and scheme == gen.scale(p, k) for p in gen.PRESETS.values()
